@@ -170,20 +170,25 @@ def search_rule(ctx, name):
     """Drive the real constructors into the rule under every identity order; first numeric mismatch."""
     trig = [(nv, rec, None) for nv, rec in (TRIGGERS.get(name) or DIFF_TRIGGERS.get(name) or [])]
     trig += [(nv, rec, sp) for nv, rec, sp in SPREAD_TRIGGERS.get(name, []) for _ in range(6)]
-    modes = ["diff"] if name in DIFF_TRIGGERS else ["auto", "doit"]
+    modes = ["diff", "diff2", "diffn"] if name in DIFF_TRIGGERS else ["auto", "doit"]
     tried = 0
     for nv, rec, spread in trig:
         for rank in ([None] if spread else all_ranks(nv, ctx.rng, 24)):
             for mode in modes:
                 envs = [vtree.rand_env(ctx.rng, nv, 2, 3).to_json() for _ in range(6)]
                 job = {"recipe": rec, "nv": nv, "ns": 2, "nf": 3, "mode": mode, "rank": rank, "envs": envs}
+                if mode == "diffn":
+                    if "norm" in vx.recipe_tags(rec):
+                        continue
+                    job.update(orders=["t"] * ctx.rng.choice([3, 3, 4]), twice_form=ctx.rng.choice(["count", "repeat"]))
                 if spread:
                     job.update(spread=spread, spread_seed=ctx.rng.randrange(10**6))
                 r = vtree.process(job)
                 tried += 1
                 if r["status"] == "ok" and r["mismatch"]:
                     return tried, {"recipe": rec, "shown": vx.show_recipe(rec), "nv": nv, "ns": 2, "nf": 3, "mode": mode, "rank": rank,
-                        "spread": job.get("spread"), "spread_seed": job.get("spread_seed"), "output": r["out_str"], **r["mismatch"]}
+                        "spread": job.get("spread"), "spread_seed": job.get("spread_seed"), "orders": job.get("orders"),
+                        "twice_form": job.get("twice_form"), "output": r["out_str"], **r["mismatch"]}
                 if r["status"] in ("recursion", "exception"):
                     return tried, {"recipe": rec, "shown": vx.show_recipe(rec), "nv": nv, "ns": 2, "nf": 3, "mode": mode, "rank": rank,
                         "output": r.get("error") or f"RecursionError through {r.get('cycle')}", "env": None,
@@ -477,6 +482,87 @@ def gen_tree(rng, nf=0, par=False, max_size=22):
     raise RuntimeError("tree generator exhausted")
 
 
+def churn_recipe(rng):
+    """a product whose operands are sums with fresh integer coefficients (distinct from every earlier one)"""
+    def lin(n):
+        idx = rng.sample(range(4), n)
+        out = None
+        for i in idx:
+            term = ("vscale", ("int", rng.choice([c for c in range(-60, 61) if c not in (0, 1)])), V(i))
+            out = term if out is None else ("vadd", out, term)
+        return out
+    kind = rng.choice(["cross", "cross", "dot", "mixed"])
+    if kind == "mixed":
+        return ("mixed", lin(rng.choice([1, 2])), lin(2), lin(rng.choice([1, 2, 3])))
+    return (kind, lin(rng.choice([2, 3])), lin(rng.choice([1, 2, 3])))
+
+
+def run_churn(recipes, envs_json, batch):
+    """builds the products one after the other in THIS process, dropping every reference to earlier operands and emptying SymPy's cache
+    and the garbage after each batch: the answer to a product must not depend on what was built before (objects at recycled addresses)"""
+    import gc  # pylint: disable=import-outside-toplevel
+    from sympy.core.cache import clear_cache  # pylint: disable=import-outside-toplevel
+    out = []
+    for i, rec in enumerate(recipes):
+        if i % batch == 0:
+            clear_cache()
+            gc.collect()
+        r = vtree.process({"id": i, "recipe": rec, "nv": 4, "ns": 1, "mode": "auto", "rank": None, "creation": [0, 1, 2, 3], "envs": envs_json,
+            "trace": False})
+        out.append({k: r.get(k) for k in ("status", "mismatch", "error", "out_str", "statement", "proof")})
+    return out
+
+
+def churn(ctx):
+    rng = ctx.rng
+    n = ctx.pick(600, 6000)
+    batch = ctx.pick(40, 150)
+    recipes = [churn_recipe(rng) for _ in range(n)]
+    envs = [vtree.rand_env(rng, 4, 1, small=False).to_json() for _ in range(2)]
+    res = run_churn(recipes, envs, batch)
+    bad = 0
+    lemmas = []
+    for i, (rec, r) in enumerate(zip(recipes, res)):
+        wrong = r["status"] != "ok" or r["mismatch"]
+        if not wrong:
+            if len(lemmas) < ctx.pick(40, 200) and i % 7 == 0:
+                lemmas.append(coqrun.Lemma(f"churn_{i}", r["statement"], r["proof"], vx.show_recipe(rec)))
+            continue
+        bad += 1
+        if bad > 5:
+            continue
+        what = (f"evaluates to {r['mismatch']['observed']} instead of {r['mismatch']['expected']}" if r.get("mismatch")
+            else f"{r['status']}: {r.get('error')}")
+        ctx.violation(f"C14:churn:{vx.show_recipe(rec)}", f"product number {i + 1} of a long series built in one process (cache and garbage emptied "
+            f"every {batch} builds): {vx.show_recipe(rec)} gives {r.get('out_str')}, which {what}",
+            {"kind": "churn", "recipes": recipes[:i + 1][-(batch + i % batch + 1):], "index_in_window": min(i, batch + i % batch), "batch": batch,
+             "envs": envs, "observed": r.get("out_str"), "what": what, "expected": "the value of the expression, whatever was built before",
+             "theorem_or_tie": "the engine is a function of its arguments (no state in Model/VecAlg.v)"}, True)
+    proved = coqrun.prove_lemmas(ctx, "churn", vtree.TV_PREAMBLE, lemmas, per_file=20, timeout=600) if lemmas else {}
+    ok = sum(v == "ok" for v in proved.values())
+    ctx.obligations(len(lemmas), ok)
+    for name, st in proved.items():
+        if st != "ok":
+            ctx.violation(f"C14:churn-proof:{name}", "a sampled product of the series could not be proved equal to its recipe",
+                {"kind": "broken-proof", "theorem_or_tie": f"generated lemma {name}", "coq_error": st[-300:]}, False)
+    ctx.evaluated(n, len(set(recipes)))
+    ctx.coverage["streams"]["churn"] = {"products": n, "distinct": len(set(recipes)), "batch_between_cache_and_gc_resets": batch, "wrong": bad,
+        "validated_numerically": n - bad, "also_proved_in_coq": ok}
+    ctx.coverage["programs"] = ctx.coverage.get("programs", 0) + n
+
+
+def replay_churn(rep):
+    recipes = [vtree.totuple(r) for r in rep["recipes"]]
+    res = run_churn(recipes, rep["envs"], rep["batch"])
+    rc = 0
+    for i, (rec, r) in enumerate(zip(recipes, res)):
+        if r["status"] != "ok" or r["mismatch"]:
+            print(f"product {i + 1}: {vx.show_recipe(rec)} -> {r.get('out_str')}   WRONG: {r.get('mismatch') or r.get('error')}")
+            rc = 1
+    print("REPRODUCED" if rc else f"all {len(recipes)} products of the window evaluate correctly")
+    return rc
+
+
 def tv_key(mode, rec, rank):
     return f"C14:tv:{mode}:{vx.show_recipe(rec)}:ids{''.join(map(str, rank)) if rank else 'spread'}"
 
@@ -736,7 +822,7 @@ def diff_spec_lemmas(ctx, meta):
     Model/VecDiff.v, about which diff_terminates_and_leibniz is proved"""
     lemmas = []
     for jid, job in meta.items():
-        if job["mode"] == "partial" or (job["mode"] == "diffn" and set(job["orders"]) != {"t"}):
+        if job["mode"] == "partial" or (job["mode"] == "diffn" and (set(job["orders"]) != {"t"} or (ctx.quick and len(job["orders"]) > 3))):
             continue                  # Model/VecDiff.v has one parameter
         rec = vtree.totuple(job["recipe"])
         atoms = {"v": set(range(job["nv"])), "s": set(range(job["ns"])), "f": set(range(job.get("nf", 0))), "par": True}
@@ -826,8 +912,11 @@ def layer_diff(ctx, failed_rules):
         ("dot", ("vadd", F(0), ("vscale", P, F(1))), F(1))]
     gfam = [("dot", G(0), G(1)), ("cross", G(0), G(1)), ("dot", G(0), ("vscale", U, V(0))), ("mixed", G(0), G(1), V(0)), ("dot", F(0), G(0))]
     for rec, orders_list in [(r_, (["t"] * 3, ["t"] * 4)) for r_ in nfam] + [(r_, (["t", "t", "u"], ["t", "u", "u"], ["u", "t", "t"])) for r_ in gfam]:
+        if ctx.quick:
+            # quick: order 3 for every recipe (one call form), order 4 for a few; thorough: every order and both call forms
+            orders_list = [orders_list[0]] + ([orders_list[1]] if rec in nfam[:3] else []) if rec in nfam else [rng.choice(orders_list)]
         for orders in orders_list:
-            for form in ("count", "repeat"):
+            for form in (("count", "repeat") if not ctx.quick else (rng.choice(["count", "repeat"]),)):
                 job = {"id": jid, "recipe": rec, "nv": 2, "ns": 2, "nf": 3, "nfun2": 2, "mode": "diffn", "orders": orders, "twice_form": form,
                     "rank": all_ranks(2, rng, 1)[0], "same_name": rng.random() < 0.2,
                     "envs": [vtree.rand_env(rng, 2, 2, 3, nf2=2).to_json() for _ in range(4)]}
@@ -869,6 +958,8 @@ def run(ctx):
     ctx.log("correspondence done")
     layer3(ctx, failed)
     ctx.log("trees done")
+    churn(ctx)
+    ctx.log("long series done")
     layer_diff(ctx, failed)
     ctx.log("derivatives done")
     ctx.coverage["rule"] = ("trees: seeded recipes (depth <= 4, <= 22 nodes) over 2-5 vector symbols and 2 real scalar symbols with sums, "
@@ -892,6 +983,11 @@ def replay(ctx, rep):
     envs = [rep["env"]] if rep.get("env") else []
     job = {"recipe": rec, "nv": rep["nv"], "ns": rep["ns"], "nf": rep.get("nf", 0), "mode": rep.get("mode", "auto"),
         "rank": rep.get("rank"), "envs": envs}
+    for k in ("spread", "spread_seed", "same_name", "nfun2", "order", "orders", "twice_form"):
+        if rep.get(k) is not None:
+            job[k] = rep[k]
+    if rep.get("kind") == "churn":
+        return replay_churn(rep)
     hs = rep.get("hashseed", 0)
     r = run_jobs([job], None if hs in (0, None) else hs)[0]
     print(f"expression : {vx.show_recipe(rec)}   (mode {job['mode']}, identity order {job['rank']}, PYTHONHASHSEED {hs})")
